@@ -160,7 +160,7 @@ class Gen:
             (8, self.s_push), (5, self.s_stackop), (5, self.s_cache), (6, self.s_int), (3, self.s_float),
             (3, self.s_cmp), (3, self.s_bytes), (2, self.s_str), (2, self.s_hash), (3, self.s_sig),
             (1, self.s_multisig), (2, self.s_time), (2, self.s_curve), (2, self.s_adapter), (1, self.s_flag),
-            (1, self.s_getvalue), (1, self.s_invoke), (1, self.s_template), (2, self.s_nop), (1, self.s_random),
+            (1, self.s_getvalue), (1, self.s_invoke), (1, self.s_transfer), (1, self.s_template), (2, self.s_nop), (1, self.s_random),
             (1, self.s_merkle), (1, self.s_taproot), (1, self.s_verify),
         ]
         if depth < self.max_depth:
@@ -438,6 +438,25 @@ class Gen:
         cnt = enc(n) if r.random() < 0.9 else enc(r.choice([-1, 5]))
         return b''.join(push(self.blob(0, 5)) for _ in range(n)) + push(cnt) + push(r.choice(ids)) + op('INVOKE')
 
+    def s_transfer(self, d):
+        """CHECK_TRANSFER on the reference contract: count 0..3, sources and proofs in corresponding order or not"""
+        r = self.r
+        ids = list(self.contracts) + [b'nocontract']
+        n = r.choice([0, 1, 1, 2, 2, 3])
+        srcs = [bytes([r.randrange(1, 6)]) + self.blob(0, 2) for _ in range(n)]
+        prfs = [bytes([r.choice([1, 3, 5, 7, 2]), r.randrange(0, 60)]) + self.blob(0, 2) + srcs[i][:1] for i in range(n)]
+        if n >= 2 and r.random() < 0.3:          # pairing broken: a proof that belongs to another source
+            prfs[0], prfs[1] = prfs[1], prfs[0]
+        if n and r.random() < 0.15:
+            prfs[r.randrange(n)] = self.blob(0, 3)
+        total = sum(p[1] if len(p) >= 2 else 0 for p in prfs)
+        amount = enc(r.choice([0, total, total, total + 1, max(total - 1, 0), -5]))
+        constraint = r.choice([b'', b'', bytes([r.choice([0, 1, 3, 9])]), self.blob(1, 3)])
+        dest = self.blob(0, 4)
+        cnt = enc(n) if r.random() < 0.9 else r.choice([b'', enc(n + 1), b'\xff'])
+        pops = [r.choice(ids) if r.random() < 0.15 else ids[0], amount if r.random() < 0.95 else b'', constraint, dest, cnt] + srcs + prfs
+        return b''.join(push(x) for x in reversed(pops)) + op('CHECK_TRANSFER')
+
     def s_template(self, d):
         r = self.r
         flag = r.choice([0, 1, 2, 3, 5, 128, 129])
@@ -566,3 +585,16 @@ class InvokeContract:
             return []
         h = hashlib.sha256(self.tag + b'|'.join(args)).digest()
         return [h[:len(args)], self.tag][:1 + (len(args) % 2)]
+
+    # the reference CanCheckTransfer contract of TapeVM.tla (RefVP / RefVT / RefVC / RefAgg): total functions of bytes
+    def verify_txn_proof(self, proof):
+        return len(proof) >= 1 and proof[0] % 2 == 1
+
+    def verify_transfer(self, proof, source, destination):
+        return len(proof) >= 1 and len(source) >= 1 and proof[-1] == source[0]
+
+    def verify_txn_constraint(self, proof, constraint):
+        return len(proof) >= 1 and constraint[0] <= proof[0]
+
+    def calc_txn_aggregates(self, proofs, scope=None):
+        return {scope: sum(p[1] if len(p) >= 2 else 0 for p in proofs)}
